@@ -803,8 +803,15 @@ func (cfg *Config) renewDynamicCertificate(ctx context.Context, hello *tls.Clien
 	renewAndReload := func(ctx context.Context, cancel context.CancelFunc) (Certificate, error) {
 		defer cancel()
 
-		// Make sure a certificate for this name should be renewed on-demand
-		err := cfg.checkIfCertShouldBeObtained(ctx, name, true)
+		// Make sure a certificate for this name should be renewed on-demand.
+		// A revoked certificate is replaced by forceRenew under its own first
+		// subject, which can differ from the name in the ClientHello (a wildcard
+		// or multi-SAN certificate): that is the name that has to be allowed.
+		gateName := name
+		if revoked && len(currentCert.Names) > 0 {
+			gateName = currentCert.Names[0]
+		}
+		err := cfg.checkIfCertShouldBeObtained(ctx, gateName, true)
 		if err != nil {
 			// if not, remove from cache (it will be deleted from storage later)
 			cfg.certCache.mu.Lock()
